@@ -10,8 +10,9 @@
 (*   "nest"   a re-entrant / aliasing history on ONE real QGauss object: [ctor, ev :   *)
 (*            Seq(event)]; the nest machine (NestSucc) is stepped through the events   *)
 (*            the same way                                                             *)
-(*   "thr"    calls from several threads on the module function / one shared object:   *)
-(*            [ctor, ev : Seq(start | finish)], stepped with ThrSucc                   *)
+(*   "thr"    calls from several threads on a module function, on one object per       *)
+(*            thread or (read-only) on one shared object: [ctor, shared, ev : Seq(start *)
+(*            | finish)], stepped with ThrSucc                                         *)
 (*   "scale"  one QGauss2 grid across the 2^20-point boundary (ScaleFailing)           *)
 (*   "ret"    one call whose integrand returned a given shape / representation         *)
 (*            (RetFailing)                                                             *)
@@ -34,7 +35,7 @@ PickTrace == blk > 0 /\ tid = 0
                    /\ tid' = t /\ blk' = blk /\ l' = 0 /\ P' = {}
                    /\ S' = IF Traces[t].k = "seq" THEN {CacheNew(Traces[t].ctor)}
                            ELSE IF Traces[t].k = "nest" THEN {NestNew(Traces[t].ctor)}
-                           ELSE IF Traces[t].k = "thr" THEN {ThrNew(Traces[t].ctor)} ELSE {}
+                           ELSE IF Traces[t].k = "thr" THEN {ThrNew(Traces[t].ctor, Traces[t].shared)} ELSE {}
 IsHist(r) == r.k = "seq" \/ r.k = "nest" \/ r.k = "thr"
 StepEv == /\ tid > 0 /\ IsHist(Traces[tid]) /\ l < Len(Traces[tid].ev) /\ S # {}
           /\ l' = l + 1 /\ P' = S
